@@ -82,4 +82,7 @@ ConfState(inst, s, st) == /\ st.cur = s.cur /\ st.agent = s.agent /\ st.i = s.i
                           /\ st.clen = s.clen /\ st.mlen = s.mlen
 
 PadAction(inst) == 0
+
+\* rl4co.utils.ops.select_start_nodes for environments with a depot: start j of an instance is customer (j mod N) + 1
+StartNode(inst, j) == (j % inst.N) + 1
 =============================================================================
